@@ -30,6 +30,7 @@ RowOfTrace(r) == [key |-> [t |-> r.t, m |-> r.kid, tag |-> 0], top |-> r.top,
                   cnt |-> r.cnt, maxcnt |-> r.maxcnt, min |-> r.min, max |-> r.max, sum |-> r.sum, sq |-> r.sq,
                   cent |-> BagOfPairs(r.cent, Len(r.cent)),
                   sk |-> [skip |-> r.uskip, items |-> ToSet(r.uitems)],
+                  ucnt |-> r.ucnt, usize |-> r.usize,
                   minH |-> r.minH, maxH |-> r.maxH, cntH |-> r.cntH]
 
 TrInit == /\ buckets = <<>> /\ contribs = <<>> /\ body = <<>> /\ done = FALSE /\ hist = <<>>
